@@ -5,6 +5,7 @@ import (
 	"encoding/json"
 	"errors"
 	"fmt"
+	"reflect"
 	"strconv"
 	"strings"
 )
@@ -119,6 +120,12 @@ func (c Cfg) parseVal(raw []byte) (uint64, error) {
 			return 0, errors.New("bad esc value")
 		}
 		return n, nil
+	case "agg":
+		var v AV
+		if err := json.Unmarshal(raw, &v); err != nil || !reflect.DeepEqual(v, aggVal(v.N)) {
+			return 0, errors.New("bad aggregate value")
+		}
+		return v.N, nil
 	case "iface":
 		var v struct{ X []string }
 		if err := json.Unmarshal(raw, &v); err != nil || len(v.X) != 1 {
